@@ -9,10 +9,13 @@ empty file yields nothing, and a stretch of `limit` or more bytes without '\n' m
 `bufio.ErrTooLong` (the lines before it were already yielded).
 
 Reverse (reverse_scanner.go): the repository's own `Scanner`, modelled operationally — fields
-`buf/bufSize/start/end/rOffset/done/err/token`, one loop iteration of `Scan` (:66-192) = `fill` (the
-read into `buf[0:start)`), `ScanLines` (:247-254), the `advance > 0 || token != nil` test, the
+`buf/bufSize/start/end/rOffset/done/err/token`, one loop iteration of `Scan` (:56-188) = `fill` (the
+read into `buf[0:start)`), `ScanLines` (:259-266), the `advance > 0 || token != nil` test, the
 `rOffset == 0` tail handling, the shift when `end < bufSize/2`, buffer doubling up to `maxTokenSize`
-(as repaired by commit 45707cd: pending data stays contiguous, free space ≤ what is left to read) — plus
+(as repaired by commit 45707cd: pending data stays contiguous, free space ≤ what is left to read), the token
+function `trimLine` (:246-257, as repaired by commit 4d4d438: the leading '\n' and at most ONE trailing '\r' are
+stripped; before that commit `bytes.Trim(…, "\r\n")` stripped every '\r' and '\n' at both ends — kept as the variant
+`trimAll = true` for the witness of that defect only) — plus
 `rawFileStreamProvider.Open`'s initial `Scan()` (:58-60) that throws away the last token, and `Emit`
 (:98-107, `bytes.Clone` of the token).
 
@@ -85,8 +88,24 @@ def isCRLF (b : UInt8) : Bool := b == CR || b == NL
 def trimRight (l : Bytes) : Bytes := (l.reverse.dropWhile isCRLF).reverse
 def trimLeft (l : Bytes) : Bytes := l.dropWhile isCRLF
 
-/-- `bytes.Trim(s, "\r\n")` = trimLeft (trimRight s); the result is `nil` exactly when it is empty. -/
+/-- `bytes.Trim(s, "\r\n")` = trimLeft (trimRight s); the result is `nil` exactly when it is empty.
+(The token function BEFORE commit 4d4d438; used only by the variant `trimAll = true`.) -/
 def trim (l : Bytes) : Bytes := trimLeft (trimRight l)
+
+/-- `trimLine` (reverse_scanner.go:246-257), the token function of the code as it is:
+`if len(line) > 0 && line[0] == '\n' { line = line[1:] }` — the newline that ends the PREVIOUS line;
+`if len(line) > 0 && line[len(line)-1] == '\r' { line = line[:len(line)-1] }` — one trailing '\r' (= `dropCR`);
+`if len(line) == 0 { return nil }` — the model does not tell nil from empty: `[]` stands for the nil token, and the
+only place the difference matters (`token != nil`, :128) is modelled as `!token.isEmpty`. -/
+def trimLine (line : Bytes) : Bytes :=
+  let line := match line with
+    | c :: r => if c == NL then r else c :: r
+    | [] => []
+  dropCR line
+
+/-- The token cut out of `data`: the code as it is (`trimAll = false`: `trimLine`) or the code before commit 4d4d438
+(`trimAll = true`: `bytes.Trim(data, "\r\n")`). -/
+def lineToken (trimAll : Bool) (data : Bytes) : Bytes := if trimAll then trim data else trimLine data
 
 def lastIdxStep (x : UInt8) (acc : Option Nat) : Option Nat :=
   match acc with
@@ -96,10 +115,11 @@ def lastIdxStep (x : UInt8) (acc : Option Nat) : Option Nat :=
 /-- `bytes.LastIndexByte(l, '\n')`. -/
 def lastIdxNL (l : Bytes) : Option Nat := l.foldr lastIdxStep none
 
-/-- `ScanLines` (reverse_scanner.go:247-254): (advance, token). -/
-def scanLines (data : Bytes) : Nat × Bytes :=
+/-- `ScanLines` (reverse_scanner.go:259-266): (advance, token) = `(i, trimLine(data[i:]))` at the last '\n',
+`(0, nil)` when there is none. -/
+def scanLines (trimAll : Bool) (data : Bytes) : Nat × Bytes :=
   match lastIdxNL data with
-  | some i => (i, trim (data.drop i))
+  | some i => (i, lineToken trimAll (data.drop i))
   | none => (0, [])
 
 /-! ## Reverse: the scanner -/
@@ -107,6 +127,7 @@ def scanLines (data : Bytes) : Nat × Bytes :=
 structure RS where
   maxTokenSize : Nat
   defBuf : Nat            -- defaultBufSize (used only when bufSize = 0 has to grow)
+  trimAll : Bool := false -- NOT a field of the Go struct: `true` = the split function before commit 4d4d438 (witness only)
   token : Bytes := []
   buf : Bytes := []       -- len(buf) = 0 until the first read
   bufSize : Nat
@@ -117,7 +138,7 @@ structure RS where
   done : Bool := false
   deriving Repr
 
-/-- `NewReverseScanner(r, readerSize)` (:34-50). -/
+/-- `NewReverseScanner(r, readerSize)` (:23-39). -/
 def newScanner (defBuf maxTok size : Nat) : RS :=
   let bufSize := if size < defBuf then size else defBuf
   { maxTokenSize := maxTok, defBuf := defBuf, bufSize := bufSize, start := bufSize, stop := bufSize,
@@ -127,7 +148,7 @@ def newScanner (defBuf maxTok size : Nat) : RS :=
 def readAt (f : Bytes) (off n : Nat) : Option Bytes :=
   if off + n ≤ f.length then some ((f.drop off).take n) else none
 
-/-- :78-116 — the read into `buf[0:start)`. -/
+/-- :68-106 — the read into `buf[0:start)`. -/
 def fill (f : Bytes) (s : RS) : RS :=
   if s.start > 0 then
     let off := s.rOffset - s.start                                   -- decreaseOffset (clamps at 0)
@@ -137,7 +158,7 @@ def fill (f : Bytes) (s : RS) : RS :=
     | some d => { s with rOffset := off, buf := d ++ buf0.drop s.start, start := 0 }
   else s
 
-/-- :157-167 — move the pending data to the right to make room before it. -/
+/-- :149-157 — move the pending data to the right to make room before it. -/
 def shift (s : RS) : RS :=
   if s.stop < s.bufSize / 2 then
     let d0 := s.bufSize - s.stop
@@ -147,7 +168,7 @@ def shift (s : RS) : RS :=
              start := s.start + d, stop := s.stop + d }
   else s
 
-/-- :170-192 — double the buffer (repaired version). `none` = ErrTooLong. -/
+/-- :160-186 — double the buffer (repaired version). `none` = ErrTooLong. -/
 def grow (s : RS) : Option RS :=
   if s.start == 0 then
     if s.bufSize ≥ s.maxTokenSize then none
@@ -163,7 +184,7 @@ def grow (s : RS) : Option RS :=
                     start := newStart, stop := newStart + dataLen, bufSize := newSize }
   else some s
 
-/-- The `for` loop of `Scan` (:76-192). Returns the scanner and `Scan`'s result. -/
+/-- The `for` loop of `Scan` (:66-187). Returns the scanner and `Scan`'s result. -/
 def scanLoop (f : Bytes) : Nat → RS → RS × Bool
   | 0, s => ({ s with err := some .fuel }, false)
   | fuel + 1, s =>
@@ -171,19 +192,19 @@ def scanLoop (f : Bytes) : Nat → RS → RS × Bool
     if s.err.isSome then (s, false)
     else
       let data := (s.buf.drop s.start).take (s.stop - s.start)
-      let (advance, token) := scanLines data
+      let (advance, token) := scanLines s.trimAll data            -- :108 bs.split
       let s := { s with token := token }
-      if advance > 0 || !token.isEmpty then                       -- :136
+      if advance > 0 || !token.isEmpty then                       -- :128 (token != nil ⇔ not empty)
         ({ s with stop := s.start + advance }, true)
-      else if s.rOffset == 0 then                                 -- :141
-        if s.start < s.stop then ({ s with token := trim data, done := true }, true)
+      else if s.rOffset == 0 then                                 -- :133
+        if s.start < s.stop then ({ s with token := lineToken s.trimAll data, done := true }, true)   -- :135 trimLine
         else ({ s with token := [], done := true }, false)
       else
         match grow (shift s) with
         | none => ({ s with err := some .tooLong }, false)
         | some s' => scanLoop f fuel s'
 
-/-- `Scan()` (:66-192). -/
+/-- `Scan()` (:56-188). -/
 def scan (f : Bytes) (fuel : Nat) (s : RS) : RS × Bool :=
   if s.done || s.err.isSome then ({ s with token := [], start := s.bufSize, stop := s.bufSize }, false)
   else scanLoop f fuel s
@@ -202,12 +223,20 @@ def collect (f : Bytes) (fuel : Nat) : Nat → RS → List Bytes × Option ScanE
       ([], if s'.err == some .readEOF then none else s'.err)
 
 /-- `StreamFromFile(path, true).Collect`: Open creates the scanner and calls `Scan()` once, ignoring its
-result (:58-60); then the Emit loop. -/
-def reverseScan (defBuf maxTok : Nat) (f : Bytes) : List Bytes × Option ScanErr :=
+result (:58-60); then the Emit loop.  `trimAll` selects the token function (see `lineToken`). -/
+def reverseScanV (trimAll : Bool) (defBuf maxTok : Nat) (f : Bytes) : List Bytes × Option ScanErr :=
   let fuel := f.length + 2
-  let s0 := newScanner defBuf maxTok f.length
+  let s0 := { newScanner defBuf maxTok f.length with trimAll := trimAll }
   let (s1, _) := scan f fuel s0
   collect f fuel (f.length + 2) s1
+
+/-- The code as it is. -/
+def reverseScan (defBuf maxTok : Nat) (f : Bytes) : List Bytes × Option ScanErr :=
+  reverseScanV false defBuf maxTok f
+
+/-- The code before commit 4d4d438 (`ScanLines` and the `rOffset == 0` tail used `bytes.Trim(…, "\r\n")`). -/
+def reverseScanTrimAll (defBuf maxTok : Nat) (f : Bytes) : List Bytes × Option ScanErr :=
+  reverseScanV true defBuf maxTok f
 
 /-- Collect's result: the elements, or the error alone. -/
 def asResult (r : List Bytes × Option ScanErr) : Except ScanErr (List Bytes) :=
